@@ -14,7 +14,7 @@ BUDGET = {'quick': 1500, 'thorough': 4000}
 RULE = ('Hypothesis-generated class DAGs (3-9 classes created with type(); bases = subsets of earlier classes made '
         'MRO-acceptable by construction; half of the cases start from a diamond prefix), instantiated twice: as '
         'component classes and as Processor subclasses (some classes falsy, some with value equality: all their '
-        'instances equal, results are compared by identity); a generated assignment of exact types to 1-4 entities '
+        'instances equal, results are compared by identity); a generated assignment of exact types to 1-4 entities (some of their components REPLACED by a new instance of the same type before the queries) '
         'and a generated subset of processor classes; then EVERY class of the DAG is used as query type for all '
         'six methods (get, get_component, has_component, remove_component, get_processor, remove_processor), the '
         'removing ones on a rebuilt world. Oracle: issubclass/isinstance. '
@@ -50,6 +50,9 @@ def strategy():
         # late: 0, or a selector for one more component class and one more processor class that are defined only
         # after every existing class has been used as a query type
         'late': st.integers(0, 11).map(lambda k: k if k < 9 else 0),
+        # repl: which entities have one of their components REPLACED (add_component of a new instance of a type the
+        # entity holds) before the queries - bit i: entity i, bits 4-5: which of its components
+        'repl': st.integers(0, 63),
     })
 
 
@@ -86,6 +89,17 @@ def run_case(case):
                 c._log = sink
             e = w.create_entity(*comps)
             rows.append((e, comps))
+        repl = case.get('repl', 0)
+        for i, (e, comps) in enumerate(rows):
+            if repl >> i & 1 and comps:
+                k = (repl >> 4) % len(comps)
+                new = type(comps[k])()
+                new._log = sink
+                try:
+                    w.add_component(e, new)
+                except Exception as exc:
+                    viol('add_component_raised', exception=repr(exc), during='replacement')
+                comps[k] = new
         procs = [t() for t in ptypes]
         for p in procs:
             w.add_processor(p)
@@ -162,6 +176,8 @@ def run_case(case):
         classes.append('churned_before_the_queries')
     if case.get('late'):
         classes.append('class_defined_after_the_first_queries')
+    if case.get('repl', 0) & 15:
+        classes.append('component_replaced_before_the_queries')
     return {'nontrivial': multi_base and multi_path, 'classes': classes}
 
 
